@@ -55,9 +55,18 @@ def run(ctx):
         for i in range(8):
             if cases[i::8]:
                 jobs.append({"part": "c03", "instance": inst, "k": 1, "c03": cases[i::8], "shard": i})
+        # the same binding under the other range-check mechanisms a builder may offer (the shipped build compiles with the commit checker):
+        # the limb width checks are requested after Verify, so their delivery depends on the chip's deferred flush
+        if inst == "testdata" or thorough:
+            idx = list(range(16)) if thorough else sorted(rnd.sample(range(16), 3))
+            for mode in ("commit", "plain"):
+                mc = [{"kind": "honest", "limbs": [], "k": []}] + [{"kind": "limb+kp", "limbs": [i], "k": ["1"]} for i in idx] + \
+                     [{"kind": "limb+2^32", "limbs": [idx[0]], "k": []}]
+                for i in range(len(mc)):
+                    jobs.append({"part": "c03", "instance": inst, "k": 1, "mode": mode, "c03": [mc[i]], "shard": 50 + i})
 
     def one(j):
-        return ctx.run_driver("wrapper", j, tag="c03-%s-%d" % (j["instance"], j["shard"]), timeout=3400)
+        return ctx.run_driver("wrapper", j, tag="c03-%s-%s-%d" % (j["instance"], j.get("mode", "native"), j["shard"]), timeout=3400)
 
     with ThreadPoolExecutor(max_workers=common.NCPU) as ex:
         for rr in ex.map(one, jobs):
